@@ -1,7 +1,7 @@
 (* C05 (counting): every rendezvous on the reload channel consumes exactly one pending request and
    begins exactly one pass; hence the passes begun never exceed the requests made. *)
 From Coq Require Import List NArith Bool Arith Lia.
-From GS Require Import LTS Supervisor SupAccept SupProps SupInv SupStop SupOnce SupReload.
+From GS Require Import LTS Supervisor SupAccept SupProps SupInv SupStop SupTrig SupGate SupOnce SupReload.
 Import ListNotations.
 
 Definition b2n (b : bool) : nat := if b then 1 else 0.
@@ -115,6 +115,9 @@ Inductive ce_effect (c : config) (s s' : state) : Prop :=
 | ce_ret j :
     rm s = RmIn j -> rm s' = rm_after c (S j) -> hist s' = EReloadRet j :: hist s -> passes s' = passes s ->
     pending_requests s' = pending_requests s -> ce_effect c s s'
+| ce_start :
+    pre_run s -> rm s' = (if any_spec reloadable c then RmIdle else RmAbsent) ->
+    passes s' = passes s -> pending_requests s' <= pending_requests s -> hist s' = hist s -> ce_effect c s s'
 | ce_other :
     passes s' = passes s -> pending_requests s' <= pending_requests s ->
     (rm s' = rm s \/ (rm s = RmIdle /\ rm s' = RmDrain) \/ (rm s = RmDrain /\ rm s' = RmDone)) ->
@@ -124,6 +127,13 @@ Inductive ce_effect (c : config) (s s' : state) : Prop :=
 Ltac hist_other :=
   first [ left; reflexivity
         | right; eexists; split; [reflexivity|split; [reflexivity|intros ? X; discriminate X]] ].
+
+Lemma nfwd_fresh c (l : list rspec) :
+  count_if is_fwd (map (fun r => if rsender r && any_spec reloadable c then LsIdle else LsAbsent) l) = 0.
+Proof.
+  induction l as [|a l IH]; [reflexivity|]. cbn [map]. rewrite cnt_cons, IH.
+  destruct (rsender a && any_spec reloadable c); reflexivity.
+Qed.
 
 Lemma step_ce_effect c s l s' : step c s l = Some s' -> ce_effect c s s'.
 Proof.
@@ -163,6 +173,8 @@ Proof.
             unfold pending_requests; simp_st; rewrite ?cnt_snoc; cbn [pend_f b2n]; lia).
   all: try (eapply ce_call; [eassumption|reflexivity|reflexivity|reflexivity|reflexivity]; fail).
   all: try (eapply ce_ret; [eassumption|reflexivity|reflexivity|reflexivity|reflexivity]; fail).
+  all: try (apply ce_start; [right; assumption|reflexivity|reflexivity| |reflexivity];
+            unfold pending_requests; simp_st; rewrite nfwd_fresh; lia).
 Qed.
 
 (* ---------------------------------------------------------------- the first Reloadable *)
@@ -228,25 +240,22 @@ Lemma InvCnt_init c : InvCnt c (init c).
 Proof.
   split; [unfold pending_requests, init; simp_st|split].
   - assert (Z : forall n, list_sum (repeat 0 n) = 0) by (induction n; cbn; auto).
-    assert (F : forall l : list rspec, count_if is_fwd
-               (map (fun r => if rsender r && any_spec reloadable c then LsIdle else LsAbsent) l) = 0).
-    { induction l as [|a l IH]; [reflexivity|]. cbn [map]. rewrite cnt_cons, IH.
-      destruct (rsender a && any_spec reloadable c); reflexivity. }
+    assert (F : forall l : list rspec, count_if is_fwd (map (fun _ => LsAbsent) l) = 0).
+    { induction l as [|a l IH]; [reflexivity|]. cbn [map]. now rewrite cnt_cons, IH. }
     rewrite Z, F. reflexivity.
-  - intros i0 r Hr. unfold due. rewrite Hr. cbn. split.
-    + destruct (any_spec reloadable c); reflexivity.
-    + intros j [H|H]; destruct (any_spec reloadable c); discriminate H.
-  - intros Hr. cbn. rewrite (no_reloadables _ Hr). now split.
+  - intros i0 r Hr. unfold due. rewrite Hr. cbn. split; [reflexivity|].
+    intros j [H|H]; discriminate H.
+  - intros Hr. cbn. now split.
 Qed.
 
 Lemma not_call_eqb i0 x : not_reload_call x -> event_eqb (EReloadCall i0) x = false.
 Proof. intros H. destruct x; try reflexivity. exfalso. eapply H. reflexivity. Qed.
 
-Lemma InvCnt_step c s l s' : InvCnt c s -> step c s l = Some s' -> InvCnt c s'.
+Lemma InvCnt_step c s l s' : InvAbs s -> InvCnt c s -> step c s l = Some s' -> InvCnt c s'.
 Proof.
-  intros (I1 & I2 & I3) H.
+  intros IA (I1 & I2 & I3) H.
   destruct (step_ce_effect _ _ _ _ H)
-    as [Ei Er Ep Eh Epr | x Hx Eh Er Ep Epr | j Ej Er Eh Ep Epr | j Ej Er Eh Ep Epr | Ep Epr Er Eh].
+    as [Ei Er Ep Eh Epr | x Hx Eh Er Ep Epr | j Ej Er Eh Ep Epr | j Ej Er Eh Ep Epr | Epre Er Ep Epr Eh | Ep Epr Er Eh].
   - (* rendezvous *)
     split; [rewrite Eh; lia|split].
     + intros i0 r Hr. destruct (I2 _ _ Hr) as (P & J). unfold due in *. rewrite Hr in *.
@@ -277,6 +286,14 @@ Proof.
         intros k' [X|X]; [injection X as <-; lia|discriminate X].
       * split; [lia|]. intros k' [X|X]; discriminate X.
     + intros Hr. destruct (I3 Hr) as (X & _). congruence.
+  - (* Run() entered: the reload manager is created, or not *)
+    destruct (IA Epre) as (Ea & _).
+    split; [rewrite Eh; lia|split].
+    + intros i0 r Hr. destruct (I2 _ _ Hr) as (P & J). unfold due in *. rewrite Hr in *.
+      rewrite Ea in P. rewrite Er, Eh, Ep.
+      split; [destruct (any_spec reloadable c); exact P|].
+      intros j [X|X]; destruct (any_spec reloadable c); discriminate X.
+    + intros Hr. destruct (I3 Hr) as (_ & Y). rewrite Er, Ep, (no_reloadables _ Hr). now split.
   - (* everything else *)
     assert (Hf : length (filter req_ev (hist s')) = length (filter req_ev (hist s))).
     { destruct Eh as [->|(x & -> & Hx & _)]; [reflexivity|]. cbn [filter]. now rewrite Hx. }
@@ -294,7 +311,14 @@ Proof.
 Qed.
 
 Lemma InvCnt_reachable c s : reachable_sup c s -> InvCnt c s.
-Proof. apply sup_inv; [apply InvCnt_init|apply InvCnt_step]. Qed.
+Proof.
+  intros Hr.
+  assert (G : InvAbs s /\ InvCnt c s).
+  { revert s Hr. apply sup_inv.
+    - split; [apply InvAbs_init|apply InvCnt_init].
+    - intros s0 l s1 [IA I] Hs. split; [eapply InvAbs_step; eassumption|eapply InvCnt_step; eassumption]. }
+  apply G.
+Qed.
 
 (* ---------------------------------------------------------------- theorems *)
 
